@@ -368,6 +368,13 @@ func checkC11(c *Ctx) {
 			badOct = fmt.Sprintf("octave %d cannot be written", o)
 		}
 	}
+	// one spelling per octave: a second spelling of an in-range octave (e.g. "-0", "08") makes a string outside the 128
+	// names an accepted note name
+	for _, sp := range octLang {
+		if n, err := strconv.Atoi(sp); err == nil && n >= -2 && n <= 8 && sp != strconv.Itoa(n) {
+			badOct = fmt.Sprintf("octave %d can also be written %q: e.g. \"c%s\" is accepted as a note although it is not one of the 128 names", n, sp, sp)
+		}
+	}
 	if badOct != "" {
 		c.Bad("R11.3", "config.stringToNoteRegex/octave-language", c.P.Pos(rpos), badOct)
 	} else {
